@@ -236,6 +236,8 @@ def run(F, R, tier):
     R.guard(_r8_phi_limit, F, R)
 
     # ---------------------------------------------------------------- R6 scale-free regime tests
+    from .structure import no_runtime_statics
+    R.guard(no_runtime_statics, F, R, "R9", ("src/gm2_ffunctions.cpp", "src/gm2_ffunctions.hpp", "src/gm2_numerics.hpp", "src/gm2_numerics.cpp"), "loop functions (gm2_ffunctions, gm2_numerics)", 1)
     R.rule("R6", "the test that selects an equal-argument expansion compares a scale-free quantity (x/y with 1), so that it "
                  "bounds the relative expansion variable (y-x)/x for arguments of every size in [1e-6, 1e6]", 6)
     scale_free_guards(F, R, "R6", ("Fa", "Fb", "Ixy", "FPZ", "FSZ", "FCWl", "Phi_over_lambda_2"), lv)
